@@ -1,65 +1,87 @@
-import ProductMD.Model.Py
 import ProductMD.Model.Regex
+import ProductMD.Model.Py
 import ProductMD.Generated.Regexes
+import ProductMD.Generated.Tables
 /-!
-`productmd.common.parse_nvra`, defined through the regular expression the code contains NOW
-(`Gen.re_common_RPM_NVRA_RE`, regenerated from the source on every run) and the backtracking engine model.
-
-    if nvra.endswith(".rpm"): nvra = nvra[:-4]
-    match = RPM_NVRA_RE.match(nvra)
-    if match is None: raise ValueError
-    result = match.groupdict()
-    result["epoch"] = result["epoch"] or 0
-    result["epoch"] = int(result["epoch"])
-
-(builder `builders`, for C12/C03; the C13 builder owns the directly written parser and the equivalence proof —
-this file only needs the executable definition.)
+`productmd.common.parse_nvra` as coded: strip a trailing `.rpm`, `RPM_NVRA_RE.match`, `groupdict()`,
+`epoch or 0`, `int()`.  The pattern and its group table are the generated ones, so the model is driven by the
+regex the source contains now.  Also the pieces of CPython the parsers rely on (`int()` on a `\d+` capture).
 -/
 namespace PM
 
-/-- value of a decimal digit character (any Unicode `Nd`, which is what `\d` matches and `int()` accepts):
-every block of the generated table starts at a zero digit and holds whole decades -/
+/-- CPython refuses decimal strings longer than this in `int()` (`sys.get_int_max_str_digits()`, 3.11+). -/
+def intMaxStrDigits : Nat := 4300
+
+/-- the `\d` class of CPython's `re` for `str` patterns (`Py_UNICODE_ISDECIMAL`), from the generated table -/
+def digitCls : Cls := { ranges := Gen.digitRanges, neg := false }
+
+/-- decimal value of a character of the `\d` class: every range of the table starts at a zero digit
+(checked against `int(c)` for all 0x110000 code points when the model was written; re-checked by correspondence) -/
 def digitVal (c : Char) : Option Nat :=
   (Gen.digitRanges.find? fun r => r.1 ≤ c.toNat && c.toNat ≤ r.2).map fun r => (c.toNat - r.1) % 10
 
-/-- `int(s)` for a non-empty string of decimal digits (no sign, blanks or underscores) -/
-def pyIntDigits (s : Str) : Option Nat :=
-  if s.isEmpty then none
-  else s.foldl (fun acc c => acc.bind fun a => (digitVal c).map (a * 10 + ·)) (some 0)
+def digitsVal : Str → Nat → Option Nat
+  | [], acc => some acc
+  | c :: cs, acc => match digitVal c with
+    | some d => digitsVal cs (acc * 10 + d)
+    | none => none
 
+/-- Python `int(s)` for a string captured by `\d+`: Unicode decimal digits allowed, `ValueError` beyond the
+interpreter's digit limit.  (Signs, blanks and underscores, which `int()` also accepts, cannot occur in a `\d+`
+capture; on such input this model answers `ValueError`.) -/
+def pyIntDigits (s : Str) : Except Err Nat :=
+  if s.isEmpty then .error .valueError
+  else if intMaxStrDigits < s.length then .error .valueError
+  else match digitsVal s 0 with
+    | some n => .ok n
+    | none => .error .valueError
+
+/-- `match.groupdict()[name]` : `none` = Python `None` (group did not take part) -/
+def namedGroup (groups : List (String × Nat)) (caps : Caps) (nm : String) : Option Str :=
+  (groups.lookup nm).bind caps.get
+
+/-- the dictionary `parse_nvra` returns -/
 structure Nvra where
-  name : Str
+  name : Option Str
   epoch : Nat
-  version : Str
-  release : Str
-  arch : Str
+  version : Option Str
+  release : Option Str
+  arch : Option Str
 deriving DecidableEq, Repr
 
-/-- number of a named group of a generated pattern (0 = not there, which never captures) -/
-def groupNo (groups : List (String × Nat)) (name : String) : Nat :=
-  ((groups.find? (·.1 == name)).map (·.2)).getD 0
+/-- `if nvra.endswith(".rpm"): nvra = nvra[:-4]` -/
+def stripRpm (s : Str) : Str :=
+  if Str.endsWith s ['.', 'r', 'p', 'm'] then s.take (s.length - 4) else s
 
-/-- `s[:-4]` when `s.endswith(".rpm")` -/
-def stripRpmSuffix (s : Str) : Str :=
-  if Str.endsWith s ".rpm".toList then s.take (s.length - 4) else s
+/-- the part of `parse_nvra` after the match -/
+def nvraOfCaps (caps : Caps) : Except Err Nvra :=
+  let g := namedGroup Gen.re_common_RPM_NVRA_RE_groups caps
+  if (Gen.re_common_RPM_NVRA_RE_groups.lookup "epoch").isNone then .error .keyError else
+  let ep : Except Err Nat := match g "epoch" with
+    | none => .ok 0
+    | some [] => .ok 0
+    | some d => pyIntDigits d
+  ep.map fun e => { name := g "name", epoch := e, version := g "version", release := g "release", arch := g "arch" }
 
 def parseNvra (s : Str) : Except Err Nvra :=
-  match pyMatch Gen.re_common_RPM_NVRA_RE (stripRpmSuffix s) with
+  match pyMatch Gen.re_common_RPM_NVRA_RE (stripRpm s) with
   | none => .error .valueError
-  | some caps =>
-    let g (n : String) : Option Str := caps.get (groupNo Gen.re_common_RPM_NVRA_RE_groups n)
-    let epoch : Option Nat :=
-      match g "epoch" with
-      | none => some 0
-      | some e => if e.isEmpty then some 0 else pyIntDigits e
-    match epoch with
-    | none => .error .valueError                -- `int()` refusing the text (cannot happen for `\d+`)
-    | some ep =>
-      .ok { name := (g "name").getD [], epoch := ep, version := (g "version").getD [],
-            release := (g "release").getD [], arch := (g "arch").getD [] }
+  | some caps => nvraOfCaps caps
 
-/-- `"%(name)s-%(epoch)s:%(version)s-%(release)s.%(arch)s" % nevra_dict` -/
-def Nvra.canonical (d : Nvra) : Str :=
-  d.name ++ '-' :: Str.natStr d.epoch ++ ':' :: d.version ++ '-' :: d.release ++ '.' :: d.arch
+/-- `"%s" % v` for a value that is a string or `None` -/
+def pctS (o : Option Str) : Str := o.getD ['N', 'o', 'n', 'e']
+
+/-- canonical re-formatting, `Rpms._check_nevra`: `"%(name)s-%(epoch)s:%(version)s-%(release)s.%(arch)s"` -/
+def canonNvra (p : Nvra) : Str :=
+  pctS p.name ++ '-' :: Str.natStr p.epoch ++ ':' :: pctS p.version ++ '-' :: pctS p.release ++ '.' :: pctS p.arch
+
+/-- `Rpms._check_nevra`: refuse a string without `:`, parse (any `ValueError` is re-raised as `ValueError`), return the
+canonical string together with the parts (`epoch or 0` is the identity on the integer already there) -/
+def checkNevra (nevra : Str) : Except Err (Str × Nvra) :=
+  if !nevra.contains ':' then .error .valueError
+  else match parseNvra nevra with
+    | .error .valueError => .error .valueError
+    | .error e => .error e
+    | .ok p => .ok (canonNvra p, p)
 
 end PM
